@@ -51,6 +51,10 @@ def rules(t):
     for x in ge:
         r.site(x)
         if method_of(callee_name(x.node)) != "ge": r.bad("horizon-op", x, "sent-packet horizon predicate changed")
+        a0 = strip(t.arg(x, 0))
+        # the age of a sent packet is `self.current_time - sent_at` (the clock already advanced by this update, counted once)
+        if isinstance(a0, tuple) and a0[0] == "call" and "sub" in a0[1].lower() and a0[2]:
+            if not fmt(strip(a0[2][0])).endswith(".current_time"): r.bad("horizon-clock", x, f"packet age is computed from {fmt(a0[2][0])[:60]} instead of the connection clock: records younger than 3 s can be dropped, so a late ack no longer stops the retransmission")
     if not ge: r.bad("horizon", None, "no sent-packet horizon")
     out.append(r)
     return out
